@@ -144,7 +144,9 @@ Print Assumptions C06_reachable_inv.
       "every scheduled parity write happens" of the theorems above cannot be dropped: sync_loop' = sync_loop except that
       the write of level l at stripe pos is dropped when `drop pos l`, and ParOK (which ignores the bad flag) fails.
       What the tool does about such a stripe since /repo 0ecd44a (it is marked bad, the run fails) is modelled and
-      proved in Fault/FaultModel.v, Props/Properties_C08.v (write_error_safe).  Partial statement proved below. *)
+      proved in Fault/FaultModel.v, Props/Properties_C08.v (write_error_safe), and the invariant that DOES hold with write
+      faults - every stripe recorded synced and not marked bad has valid parity - is Props/Properties_C06_fault.v
+      (C06f_sync_loop_w_inv, C06f_reach_w_inv).  Partial statement proved below. *)
 Theorem C06_inv_write_fault_refuted :
   exists (hashf : bid -> N -> hval) (bs : N) (nlev : nat) (drop : nat -> nat -> bool) (o : sopts) (now : N)
          (fs : list (option fsdisk)) (faults : nat -> list (option rd)) (stripes : list nat) (stop : option nat)
